@@ -20,15 +20,15 @@ import (
 
 // HookEvent is one recorded hook invocation.
 type HookEvent struct {
-	Seq     int64  `json:"seq"`
-	Hook    string `json:"hook"`
-	Client  string `json:"client,omitempty"`
-	Topic   string `json:"topic,omitempty"`
-	Payload string `json:"payload,omitempty"`
-	PID     uint16 `json:"pid,omitempty"`
-	Type    byte   `json:"type,omitempty"`
-	N       int64  `json:"n,omitempty"`
-	Bytes   []byte `json:"-"`
+	Seq     int64        `json:"seq"`
+	Hook    string       `json:"hook"`
+	Client  string       `json:"client,omitempty"`
+	Topic   string       `json:"topic,omitempty"`
+	Payload string       `json:"payload,omitempty"`
+	PID     uint16       `json:"pid,omitempty"`
+	Type    byte         `json:"type,omitempty"`
+	N       int64        `json:"n,omitempty"`
+	Bytes   []byte       `json:"-"`
 	Ptr     *mqtt.Client `json:"-"`
 	Remote  string       `json:"-"`
 }
@@ -76,8 +76,12 @@ type lockedBuf struct {
 	b  bytes.Buffer
 }
 
-func (l *lockedBuf) Write(p []byte) (int, error) { l.mu.Lock(); defer l.mu.Unlock(); return l.b.Write(p) }
-func (l *lockedBuf) String() string             { l.mu.Lock(); defer l.mu.Unlock(); return l.b.String() }
+func (l *lockedBuf) Write(p []byte) (int, error) {
+	l.mu.Lock()
+	defer l.mu.Unlock()
+	return l.b.Write(p)
+}
+func (l *lockedBuf) String() string { l.mu.Lock(); defer l.mu.Unlock(); return l.b.String() }
 
 func NewBroker(o Options) *Broker {
 	b := &Broker{Seq: &Seq{}, Opts: o, logBuf: &lockedBuf{}}
@@ -138,18 +142,18 @@ type Client struct {
 	Index   int
 	Version byte // protocol version for decoding broker output (set by the harness at CONNECT)
 	done    chan struct{}
-	Err     error // what EstablishConnection returned
-	DoneSeq int64 // global sequence number at which the handler returned (valid once Done())
+	Err     error        // what EstablishConnection returned
+	DoneSeq int64        // global sequence number at which the handler returned (valid once Done())
 	RetSeq  atomic.Int64 // sequence number at the handler's deferred return point (0: never registered); only with a controller
 
-	outIdx  int
-	rx      []byte
-	rxSeq   []int64 // seq of the chunk each pending byte came from (first byte of packet decides)
-	Inbox   []*RxPacket
-	RawLog  []byte // every byte the broker wrote, in order
-	DecErr  error  // first strict decode error on the broker's output
-	DecOff  int
-	parked  atomic.Bool
+	outIdx int
+	rx     []byte
+	rxSeq  []int64 // seq of the chunk each pending byte came from (first byte of packet decides)
+	Inbox  []*RxPacket
+	RawLog []byte // every byte the broker wrote, in order
+	DecErr error  // first strict decode error on the broker's output
+	DecOff int
+	parked atomic.Bool
 }
 
 type RxPacket struct {
